@@ -124,7 +124,7 @@ struct Replicas {
             else if (n == "As") r->label = "As/static-bmi2";
             else if (n == "B") r->label = "B/portable64";
             else if (n == "C") r->label = "C/portable32";
-            else if (n == "D") r->label = "D/portable64-O0";
+            else if (n == "D") r->label = "D/portable32-O0";
             else if (n == "G") r->label = "G/g++-asm";   // run-time dispatch left exactly as the library's own load-time initialiser set it: the harness never writes this replica's table
             r->apply_dispatch();
             all.push_back(r);
